@@ -54,6 +54,7 @@ type runner struct {
 	keys      []*dsig.PrivateKey
 	stranger  *dsig.PublicKey // a key that never signs
 	lookalike *dsig.PublicKey // other key material under key 1's key id
+	relabeled []*dsig.PublicKey // key 1's own key material under another key id / without one
 	dig       *envh.Digests
 	quiet     bool // re-running candidates of the shrinker: no counters, no failures
 	nfail     int
@@ -162,8 +163,14 @@ func (r *runner) gen(id int) (base int, next func(st *envh.St, i int) (envh.Act,
 			}},
 		}
 	}
+	var pending []envh.Act
 	next = func(st *envh.St, i int) (envh.Act, bool) {
 		h := st.Env.Head
+		if len(pending) > 0 && i > npre+1 {
+			a := pending[0]
+			pending = pending[1:]
+			return a, true
+		}
 		switch {
 		case i == 0:
 			return envh.Act{K: "ins", Base: base}, true
@@ -258,6 +265,33 @@ func (r *runner) gen(id int) (base int, next func(st *envh.St, i int) (envh.Act,
 				}
 				return envh.Act{K: "trawstamp", A: p, B: fmt.Sprintf("dup-%d", i)}
 			}},
+			// one entry replaced by an exact copy of another one of the same list (the list keeps its
+			// length, every entry it shows was signed, yet a signed entry is gone)
+			weighted{4, func() envh.Act {
+				switch k := rng.Intn(3); {
+				case k == 0 && len(h.Tags) >= 2:
+					a, b := rng.Intn(len(h.Tags)), rng.Intn(len(h.Tags)-1)
+					if b >= a {
+						b++
+					}
+					return envh.Act{K: "ttag", N: a, A: h.Tags[b]}
+				case k == 1 && len(h.Stamps) >= 2:
+					a, b := rng.Intn(len(h.Stamps)), rng.Intn(len(h.Stamps)-1)
+					if b >= a {
+						b++
+					}
+					pending = append(pending, envh.Act{K: "trawstamp", A: string(h.Stamps[b].Provider), B: h.Stamps[b].Value})
+					return envh.Act{K: "tdropstamp", N: a}
+				case len(h.Links) >= 2:
+					a, b := rng.Intn(len(h.Links)), rng.Intn(len(h.Links)-1)
+					if b >= a {
+						b++
+					}
+					pending = append(pending, envh.Act{K: "trawlink", A: string(h.Links[b].Key), B: h.Links[b].URL})
+					return envh.Act{K: "tdroplink", N: a}
+				}
+				return envh.Act{K: "tdroptag", N: idx(len(h.Tags))}
+			}},
 			// the document
 			weighted{7, func() envh.Act { return envh.Act{K: "edit", N: 1000 + i} }},
 			weighted{calcW, func() envh.Act { return envh.Act{K: "calc"} }},
@@ -341,6 +375,15 @@ func (r *runner) run(tc tcase, base int, next func(st *envh.St, i int) (envh.Act
 					vl := envh.VerifyDetail(st.Env.Verify(r.lookalike), len(st.Env.Signatures))
 					if vl != vs {
 						so.nilKey = fmt.Sprintf("Envelope.Verify(other key material under key 1's id), asked after Verify(key 1) on the same value, = %s but a key that signed nothing gives %s", vl, vs)
+					}
+				}
+				// ... and the converse: the key id is a label, the matching key is the key material
+				for _, rk := range r.relabeled {
+					if so.nilKey != "" {
+						break
+					}
+					if vr := envh.VerifyDetail(st.Env.Verify(rk), len(st.Env.Signatures)); vr != so.v[0] {
+						so.nilKey = fmt.Sprintf("Envelope.Verify(key 1's own key material under the key id %q) = %s but Verify(key 1) = %s", rk.ID(), vr, so.v[0])
 					}
 				}
 			}
@@ -461,6 +504,26 @@ func Run(c *core.Ctx) int {
 			}
 		}
 	}
+	// key 1's own public key under another label and without one
+	if jb, err := json.Marshal(r.keys[0].Public()); err == nil {
+		for _, kid := range []any{"another-label", nil} {
+			var m map[string]any
+			if json.Unmarshal(jb, &m) != nil {
+				continue
+			}
+			if kid == nil {
+				delete(m, "kid")
+			} else {
+				m["kid"] = kid
+			}
+			b2, _ := json.Marshal(m)
+			rk := new(dsig.PublicKey)
+			if json.Unmarshal(b2, rk) == nil && rk.ID() != r.keys[0].ID() && rk.Thumbprint() == r.keys[0].Public().Thumbprint() {
+				r.relabeled = append(r.relabeled, rk)
+			}
+		}
+	}
+	c.Count("relabelled-copies-of-key-1", int64(len(r.relabeled)))
 	var hs []*histObs
 	var rc tcase
 	if c.ReplayCase(&rc) {
